@@ -113,6 +113,10 @@ func c07Build(c *C07Case) c07Built {
 	if c.HasBody {
 		sch := openapi3.NewObjectSchema().WithProperty("x", openapi3.NewIntegerSchema())
 		sch.Required = []string{"x"}
+		if c.Defaults {
+			// a member with a default that the body leaves out: the body is written back with it
+			sch.WithProperty("d", openapi3.NewIntegerSchema().WithDefault(5))
+		}
 		op.RequestBody = &openapi3.RequestBodyRef{Value: openapi3.NewRequestBody().WithRequired(c.BodyReq).WithJSONSchema(sch)}
 	}
 	item.Post = op
@@ -133,6 +137,10 @@ func c07Build(c *C07Case) c07Built {
 		} else if body != "" {
 			req = httptest.NewRequest("POST", "/r/1", strings.NewReader(body))
 			req.Header.Set("Content-Type", "application/json")
+			if c.Defaults {
+				// media type parameters do not change which media type it is
+				req.Header.Set("Content-Type", "application/json; charset=utf-8")
+			}
 		} else {
 			req = httptest.NewRequest("POST", "/r/1", nil)
 		}
